@@ -86,6 +86,12 @@ def main():
     with open(specf) as f:
         spec = json.load(f)
     sys.setrecursionlimit(3000)
+    cpu = os.environ.get('VERIF_CPU')
+    if cpu:
+        try:
+            os.sched_setaffinity(0, {int(cpu)})
+        except (AttributeError, OSError, ValueError):
+            pass
     try:
         # a render that allocates without bound (a non-terminating batch list, say) must end in a MemoryError
         # inside this shard, not in the kernel's OOM killer taking other shards with it
